@@ -375,6 +375,10 @@ func c08Case(c *core.Ctx, idx int) {
 		c08PtrKeys(c, idx, cfg, name, p)
 		return
 	}
+	if idx%23 == 9 {
+		c08Concurrent(c, idx, cfg, name, p)
+		return
+	}
 	switch idx % 3 {
 	case 0, 1:
 		plants := c08Plants()
@@ -523,6 +527,100 @@ func c08AfterRejection(c *core.Ctx, tc *tcase, r *rand.Rand) {
 		}
 	}
 	rec.Count("post_rejection_probes", 1)
+}
+
+// c08Concurrent: the answer to "a codec for this definition?" is the same when several goroutines
+// ask at once on an instance that has never seen it: every caller of an invalid definition gets an
+// error (never a nil codec without one, never a panic), every caller of a valid one a codec that works.
+func c08Concurrent(c *core.Ctx, idx int, cfg model.Cfg, name string, p *plenc.Plenc) {
+	rec := c.Rec
+	r := c.RandFor(idx, "plant")
+	plants := c08Plants()
+	for round := 0; round < 6; round++ {
+		pl := plants[r.IntN(len(plants))]
+		typ, where := wrapPlant(r, pl.build(r), r.IntN(3))
+		why := cfg.Validate(typ, "")
+		if !pl.mustReject && (why != "" || pl.name != "valid-neighbour") {
+			continue
+		}
+		if pl.mustReject && why == "" {
+			continue
+		}
+		if cfg.ProtoArrays && typ.Kind() == reflect.Slice {
+			typ, where = structOf(sf("T", typ, `plenc:"1"`)), "field>"+where
+			if (cfg.Validate(typ, "") == "") == pl.mustReject {
+				continue
+			}
+		}
+		core.TheCursor.Note("C08 concurrent definition ", typeString(typ))
+		g := 3 + r.IntN(6)
+		type res struct {
+			codec bool
+			err   error
+			pn    string
+			how   string
+		}
+		out := make([]res, g)
+		hows := make([]int, g)
+		for i := range hows {
+			hows[i] = r.IntN(4)
+		}
+		start := make(chan struct{})
+		done := make(chan int, g)
+		for i := 0; i < g; i++ {
+			go func(i int) {
+				defer func() { done <- i }()
+				<-start
+				o := &out[i]
+				switch hows[i] {
+				case 0:
+					o.how = "CodecForType"
+					o.pn = core.Guard(func() {
+						cd, err := p.CodecForType(typ)
+						o.codec, o.err = cd != nil, err
+					})
+				case 1:
+					o.how = "CodecForTypeWithTag"
+					o.pn = core.Guard(func() {
+						cd, err := p.CodecForTypeWithTag(typ, "")
+						o.codec, o.err = cd != nil, err
+					})
+				case 2:
+					o.how = "Marshal"
+					o.pn = core.Guard(func() { _, o.err = p.Marshal(nil, reflect.New(typ).Interface()) })
+					o.codec = o.err == nil
+				default:
+					o.how = "Unmarshal"
+					o.pn = core.Guard(func() { o.err = p.Unmarshal([]byte{}, reflect.New(typ).Interface()) })
+					o.codec = o.err == nil
+				}
+			}(i)
+		}
+		close(start)
+		for i := 0; i < g; i++ {
+			<-done
+		}
+		rec.Eval(g)
+		rec.Count("concurrent_first_requests", g)
+		desc := fmt.Sprintf("[%s] planted %s at %q, asked for by %d goroutines at once on a new instance\n  type %s", name, pl.name, where, g, typeString(typ))
+		for i, o := range out {
+			switch {
+			case o.pn != "":
+				rec.Violation("codec-panic", fmt.Sprintf("goroutine %d: %s panicked %s\n%s", i, o.how, desc, o.pn), map[string]any{"type": typeString(typ)})
+				return
+			case pl.mustReject && o.err == nil:
+				rec.Violation("accepted-invalid", fmt.Sprintf("goroutine %d: %s reports no error for a definition that must be rejected (%s) %s", i, o.how, why, desc), map[string]any{"type": typeString(typ)})
+				return
+			case !pl.mustReject && (o.err != nil || !o.codec):
+				rec.Violation("valid-type-rejected", fmt.Sprintf("goroutine %d: %s gives (codec %v, error %v) for a valid definition %s", i, o.how, o.codec, o.err, desc), map[string]any{"type": typeString(typ)})
+				return
+			}
+		}
+		if !pl.mustReject {
+			c08Works(c, &tcase{cfg: cfg, name: name, p: p, typ: typ}, r)
+		}
+	}
+	rec.NonTrivial(core.Hash64("concurrent", fmt.Sprint(idx)))
 }
 
 // c08Fix32 is a type of struct kind whose codec, registered by the caller, is fixed width
@@ -703,7 +801,7 @@ func init() {
 	core.Register(&core.Prop{
 		ID:        "C08",
 		Technique: "definition-fault monitor: struct definitions with planted invalid constructs at random nesting positions, each CodecForType/Marshal/Unmarshal under panic capture in a child process and classified reject / working codec; sentinel values in unexported and \"-\" fields",
-		Rule: "among the planted definitions: pointers to and slices of types whose registered codec is fixed width although their kind is not a float (null.Float, a codec the caller registered): an error, or a codec that brings fully present values back. every 19th case: maps with pointer keys (accepted types) at top level, as a field and in the repeated form, compared by pointee, earlier results re-read after later decodes. Otherwise two thirds of the cases: one of 9 families of invalid constructs (missing tag, unparsable index, negative index, duplicate indexes incl. across skipped fields, option without codec, unsupported kind, slice of float pointers, slice of slices of length-delimited elements, maps nested where they cannot be encoded) or a valid neighbour, wrapped 0-3 levels deep as field / pointer target / slice element / map value / map key / pointer field; must-reject families must yield an error from CodecForType, Marshal and Unmarshal without a panic, valid neighbours must yield a codec that round-trips. " +
+		Rule: "every 23rd case: planted definitions (invalid ones and valid neighbours) asked for by 3-8 goroutines at once on a new instance through CodecForType, CodecForTypeWithTag, Marshal and Unmarshal: every caller gets the error, or a codec that works. among the planted definitions: pointers to and slices of types whose registered codec is fixed width although their kind is not a float (null.Float, a codec the caller registered): an error, or a codec that brings fully present values back. every 19th case: maps with pointer keys (accepted types) at top level, as a field and in the repeated form, compared by pointee, earlier results re-read after later decodes. Otherwise two thirds of the cases: one of 9 families of invalid constructs (missing tag, unparsable index, negative index, duplicate indexes incl. across skipped fields, option without codec, unsupported kind, slice of float pointers, slice of slices of length-delimited elements, maps nested where they cannot be encoded) or a valid neighbour, wrapped 0-3 levels deep as field / pointer target / slice element / map value / map key / pointer field; must-reject families must yield an error from CodecForType, Marshal and Unmarshal without a panic, valid neighbours must yield a codec that round-trips. " +
 			"one third: generated valid definitions with unexported and \"-\" fields: accepted, round-trip, encoding unchanged when those fields are set (via unsafe), and sentinels in them survive Unmarshal. distinct = distinct (definition, configuration) pairs",
 		Assume: []string{"model.Validate states which definitions the documentation accepts"},
 		Plan: func(tier string) []core.Lane {
